@@ -215,3 +215,27 @@ Proof.
     { induction l as [|x l IHl]; [reflexivity|]. cbn [filter map]. destruct (is_ok x); cbn [List.length]; rewrite IHl; reflexivity. }
     rewrite H. lia.
 Qed.
+
+(* ---- a configuration accepted by makeConfig cannot make the import goroutine panic ---- *)
+Lemma col_data_types_length sch : forall dst ts, col_data_types sch dst = Some ts -> List.length ts = List.length dst.
+Proof.
+  induction dst as [|d r IH]; intros ts H; cbn [col_data_types] in H.
+  - inversion H. reflexivity.
+  - destruct (field_type sch d); [|discriminate]. destruct (col_data_types sch r) as [ts'|]; [|discriminate].
+    inversion H. cbn [List.length]. rewrite (IH ts' eq_refl). reflexivity.
+Qed.
+
+Lemma make_config_no_panic sch dst src c : make_config sch dst src = Some c -> no_panic c = true.
+Proof.
+  unfold make_config. destruct (existsb _ src); [discriminate|].
+  destruct (List.length dst <? List.length src)%nat eqn:El; [discriminate|].
+  destruct (col_data_types sch dst) as [ts|] eqn:Et; [|discriminate].
+  intros H. inversion H. unfold no_panic. cbn [srcCols colTypes].
+  rewrite map_length, (col_data_types_length sch dst ts Et). apply Nat.leb_le. apply Nat.ltb_ge in El. exact El.
+Qed.
+
+Lemma import_exact_configured sch dst src c : make_config sch dst src = Some c -> forall evs tbl,
+  snd (import c sch evs tbl) = tbl ++ map (convert c sch) (accepted_records c sch (until_stop evs)) /\
+  map is_ok (fst (import c sch evs tbl)) = map (event_accepted c sch) (until_stop evs) /\
+  ~ In EvPanic (fst (import c sch evs tbl)).
+Proof. intros H. apply import_exact. eapply make_config_no_panic; eauto. Qed.
